@@ -52,6 +52,23 @@ CATALOGUES = {
 }
 
 
+CATALOGUES["perm1"] = dict(version="gfa1", lines=[
+    "S|A|ACGT", "S|B|*|LN:i:6", "S|C|*",
+    "L|A|+|B|+|2M1D1M", "L|B|-|A|-|1M1I2M", "L|B|+|C|-|*|ID:Z:l1", "L|A|+|A|-|*", "L|C|+|A|+|3M",
+    "C|A|+|B|+|1|2M",
+    "P|p1|A+,B+|2M1D1M", "P|p2|B-,A-|*", "P|p3|A+,B+,C-|*,*", "P|p4|C+,A+,B+|3M,2M1D1M,*",
+    "H|VN:Z:1.0", "H|xx:i:1", "#| c",
+], ids=["A", "B", "C", "p1", "p2", "l1"], renames=[])
+CATALOGUES["perm2"] = dict(version="gfa2", lines=[
+    "S|a|4|ACGT", "S|b|6|*", "S|c|3|*",
+    "E|e1|a+|b+|2|4$|0|2|2M", "E|e2|a+|b-|0|4$|1|5|*", "E|*|a+|c+|1|2|1|2|*", "E|e5|b+|c+|3|6$|0|3$|*",
+    "G|g1|a+|b-|10|*", "F|a|x+|0|2|0|2|*",
+    "O|o1|a+ b+", "O|o2|a+ e1+ b+", "O|o3|o2- c+", "O|o1|c+|xx:i:1",
+    "U|u1|a e1 g1", "U|u2|u1 o1", "U|u1|c|yy:i:2",
+    "X|custom|1", "H|VN:Z:2.0", "H|TS:i:10",
+], ids=["a", "b", "c", "e1", "g1", "o1", "o2", "u1"], renames=[])
+
+
 def text_of(src):
     return src.replace("|", "\t")
 
@@ -451,3 +468,80 @@ def run_pipeline(out, jobs_by_name, mc_specs, prop):
                             "calls": [[o["k"], o["text"] or [o["id"], o["id2"]], e["res"]]
                                       for o, e in zip(t["src"], t["ev"])]})
     return traces, r
+
+
+
+# --------------------------------------------------------------------------
+# arrival orders (C03): every permutation of every valid document
+
+ARRIVAL_CFG = """SPECIFICATION Spec
+CONSTRAINT Emit
+INVARIANT AllAccepted
+INVARIANT Confluent
+INVARIANT NoPlaceholderAtEnd
+INVARIANT VersionDecided
+CHECK_DEADLOCK FALSE
+"""
+
+
+def mc_arrival(catname, minl, maxl, name, cfgversion="none", vlevel=1, timeout=3600):
+    wd = workdir(name)
+    cat = CATALOGUES[catname]
+    ops = [o for o in build_ops(cat) if o["k"] == "add"]
+    cj, ops = catalog_json(catname, maxl, cfgversion, vlevel, ops)
+    cj["mindepth"] = minl
+    cf = os.path.join(wd, "catalog.json")
+    with open(cf, "w") as f:
+        json.dump(cj, f)
+    rc, out = run_tlc("MC_Arrival", ARRIVAL_CFG, wd, env={"CATALOG_FILE": cf}, workers=NCPU,
+                      timeout=timeout, heap="8g")
+    if rc != 0 or "No error has been found" not in out:
+        raise MachineryError("MC_Arrival failed:\n" + "\n".join(out.splitlines()[-40:]))
+    seqs = {}
+    for raw in parse_tuples(out, "H"):
+        v = tla_value(raw)
+        seqs[tuple(x - 1 for x in v[1])] = bool(v[2])
+    return seqs, ops, stats(out)
+
+
+def perm_jobs(seqs, ops, catname, cfgversion="none", vlevel=1, tag=""):
+    cat = CATALOGUES[catname]
+    universe = sorted(set(cat["ids"]))
+    jobs = []
+    for n, (h, strict) in enumerate(sorted(seqs.items())):
+        jobs.append(dict(id="perm%s-%s-%s-%d" % (tag, catname, cfgversion, n), kind="perm",
+                         cfg=dict(version=cfgversion, vlevel=vlevel),
+                         ops=[ops[i] for i in h] + [dict(k="flush", text="", id="", id2="")],
+                         universe=universe, doc=[catname] + sorted(h), strict=strict))
+    return jobs
+
+
+def validate_perm_groups(traces, jobs, name):
+    """Digest equality across the orders of each strict document, judged by TLC."""
+    by_doc = {}
+    jb = {j["id"]: j for j in jobs}
+    for t in traces:
+        j = jb.get(t["id"])
+        if not j or not j.get("strict") or not t["ev"] or "broken" in t["ev"][-1]["obs"]:
+            continue
+        key = json.dumps([j["doc"], j["cfg"]])
+        g = by_doc.setdefault(key, {"id": t["id"], "digs": [], "res": [], "ids": []})
+        g["digs"].append(t["ev"][-1]["obs"]["dig"])
+        g["res"].append("+".join(sorted(e["res"] for e in t["ev"])))
+        g["ids"].append(t["id"])
+    groups = [g for g in by_doc.values() if len(g["digs"]) > 1]
+    if not groups:
+        return [], 0
+    wd = workdir(name)
+    f = os.path.join(wd, "groups.json")
+    with open(f, "w") as fh:
+        json.dump(groups, fh)
+    rc, out = run_tlc("TracePerm", TRACE_CFG, wd, env={"TRACE_FILE": f}, workers=1)
+    st = stats(out)
+    if rc != 0 or st is None or st[1] != 2 * len(groups):
+        raise MachineryError("TracePerm failed:\n" + "\n".join(out.splitlines()[-20:]))
+    rej = []
+    for raw in parse_tuples(out, "REJECT"):
+        v = tla_value(raw)
+        rej.append((v[1], v[2], sorted(v[3]), v[4]))
+    return rej, len(groups)
